@@ -167,7 +167,7 @@ func c16Run(t *testing.T, s *sim.Scn) *sim.Outcome {
 		case "rscript":
 			for _, d := range []*sim.SimDA{d1, d2} {
 				h := uint64(op.A % 6)
-				d.ReadScript[h] = append(d.ReadScript[h], sim.ReadOutcome{Kind: sim.ReadKind(1 + op.B%4), Chunk: int(op.C % 2)})
+				d.ReadScript[h] = append(d.ReadScript[h], sim.ReadOutcome{Kind: sim.ReadKind(1 + op.B%4), Chunk: int(op.C % 2), Flavor: int(op.C>>1) % 4})
 			}
 			o.Count("scripted-read", 1)
 		case "advance":
@@ -317,7 +317,7 @@ func c16Gen(r *rand.Rand, tier string) *sim.Scn {
 		case x < 65:
 			s.Ops = append(s.Ops, sim.Op{K: "plant", A: r.Int64N(2), B: r.Int64N(10), C: r.Int64N(20)})
 		case x < 75:
-			s.Ops = append(s.Ops, sim.Op{K: "rscript", A: r.Int64N(6), B: r.Int64N(4), C: r.Int64N(2)})
+			s.Ops = append(s.Ops, sim.Op{K: "rscript", A: r.Int64N(6), B: r.Int64N(4), C: r.Int64N(8)})
 		default:
 			s.Ops = append(s.Ops, sim.Op{K: "retrieve", A: r.Int64N(7)})
 		}
